@@ -158,7 +158,7 @@ class Sim:
         except RuntimeError:
             return "-"
 
-    def log(self, kind: str, **data: Any) -> int:
+    def log(self, kind: str, /, **data: Any) -> int:
         self.seq += 1
         try:
             t = round(self.now(), 6)
